@@ -70,7 +70,7 @@ Fixpoint commits_cover (g : cfg) (evs : list mev) (snaps : list snap) : bool :=
       (match e with
        | MCore Commit =>
            negb (g_changes g) ||
-           forallb (fun r => existsb (fun x => (vtx r =? fst x) && (tab_cls (vkey r) =? snd x)%nat) (sn_chg sn)) (sn_vt sn)
+           forallb (fun r => existsb (fun x => (vtx r =? fst x) && (tab_cls (vkey r) =? tabn g (snd x))%nat) (sn_chg sn)) (sn_vt sn)
        | _ => true end) && commits_cover g evs' snaps'
   | _, _ => true
   end.
